@@ -356,11 +356,11 @@ def _run(check: Check, args, t0: float) -> int:
                 break
             path = None
         if path is None:
-            if det_bad:
-                print(f"NOTE check={check.id}: {sig} ({persig[sig]} cases) only occurs with state left behind by earlier cases of the same process; not reported")
-                unreplayable.append(sig)
-                continue
-            raise HarnessError(f"violation {sig} does not replay in a fresh interpreter")
+            # only occurs with state left behind by earlier cases of the same worker process (or a harness problem): never reported
+            # as a VIOLATION; if nothing at all replays the run ends as a harness error below
+            print(f"NOTE check={check.id}: {sig} ({persig[sig]} cases) does not replay from its file in a fresh interpreter; not reported")
+            unreplayable.append(sig)
+            continue
         print(f"VIOLATION property={check.id} replay={path}")
         print(f"  signature: {sig}  ({persig[sig]} cases)  detail: {v.get('detail', '')[:300]}")
         new_viols.append(sig)
